@@ -81,7 +81,18 @@ def main():
     pk = " ".join("./%s/" % t for t in touched)
     testcmd = "go test -count=1 -vet=off %s %s" % (goflags, pk)
     os.remove(os.path.join(WT, pkg, "zz_seed_" + demo))
-    rcb, outb = sh(testcmd)
+    # re-evaluation of a kept seed: the comparison of the existing tests was made when the seed
+    # was first kept (same patch); SEEDEVAL_SKIP_EXISTING=1 reuses that verdict
+    prev = None
+    pm = os.path.join(d, "meta.json")
+    if os.environ.get("SEEDEVAL_SKIP_EXISTING") and os.path.exists(pm):
+        try:
+            prev = json.load(open(pm))["steps"]["existing_tests"]
+        except Exception:
+            prev = None
+        if prev is not None and not prev.get("same_verdicts"):
+            prev = None
+    rcb, outb = (0, "") if prev else sh(testcmd)
     rc, out = sh("git apply --whitespace=nowarn %s" % patch)
     res["steps"]["apply"] = {"rc": rc, "out": out[-300:]}
     if rc != 0:
@@ -90,9 +101,13 @@ def main():
         return
     rcbuild, outbuild = sh("go build %s" % pk)
     res["steps"]["build_with_patch"] = {"rc": rcbuild, "tail": outbuild[-400:]}
-    rca, outa = sh(testcmd)
-    same = verdicts(outb) == verdicts(outa)
-    res["steps"]["existing_tests"] = {"cmd": testcmd, "same_verdicts": same, "before": verdicts(outb)[:40], "after": verdicts(outa)[:40]}
+    if prev:
+        same = True
+        res["steps"]["existing_tests"] = dict(prev, reused_from_earlier_evaluation=True)
+    else:
+        rca, outa = sh(testcmd)
+        same = verdicts(outb) == verdicts(outa)
+        res["steps"]["existing_tests"] = {"cmd": testcmd, "same_verdicts": same, "before": verdicts(outb)[:40], "after": verdicts(outa)[:40]}
     shutil.copy(os.path.join(d, demo), os.path.join(WT, pkg, "zz_seed_" + demo))
     rc1, out1 = sh(democmd, timeout=3000)
     res["steps"]["demo_with_patch"] = {"rc": rc1, "tail": out1[-800:]}
